@@ -310,7 +310,7 @@ theorem unstructured_header_fetches (h : HFile) (il t : Nat) (hs : h.structured 
     (o : HOut) (hok : (genTraceHeader h il HSt.init t false).2 = .ok o) :
     o.fetches ≠ [] ∧ ∀ f ∈ o.fetches, ∃ x, f = (offsetOf h x, h.len) := by
   unfold genTraceHeader at hok
-  by_cases hb : (h.is3d && !(decide (t < h.grid))) = true
+  by_cases hb : (!(decide (t < h.grid))) = true
   · rw [if_pos hb] at hok; cases hok
   rw [if_neg hb] at hok
   simp only [hs, Bool.false_and, Bool.false_eq_true, if_false, HSt.init, Option.getD_none, Bool.not_false,
